@@ -11,6 +11,7 @@ of the sync and async clients.
 
 import copy
 import itertools
+import time
 import math
 
 from .. import common, drivers, refber as rb
@@ -325,6 +326,9 @@ def inject_send_fault(session, fail_at):
     session._send = patched
 
 
+LIMIT_RPS = 50
+
+
 def _restore(pm, saved):
     if "get_timeout" in saved:
         pm.RPSPolicer.get_timeout = saved["get_timeout"]
@@ -357,21 +361,28 @@ def session_events(driver, cfg, script, send_fault=None, lose=None, both=False, 
     #               the blocking sleep of wait_sync()
     saved = {}
     pol_kw = {"policer": Rec()}
+    arrivals = []
     if mode == "limit":
-        saved["get_timeout"] = pm.RPSPolicer.get_timeout
-
-        def rec_get_timeout(self_, ts):
-            events.append("W")
-            return None
-
-        pm.RPSPolicer.get_timeout = rec_get_timeout
-        pol_kw = {"limit_rps": 50}
+        # the session is given limit_rps only and builds whatever policer it likes: judged by what reaches the agent -
+        # any three consecutive datagrams span more than one interval (LIMIT_RPS = 50, i.e. 20 ms; 5 ms of slack for jitter)
+        pol_kw = {"limit_rps": LIMIT_RPS}
     if mode == "delay":
         saved["sleep"] = pm.sleep
-        pm.sleep = lambda s_: events.append("B")
+        def rec_sleep(s_):
+            # blocking only matters where the event loop runs: a sleep handed to an executor thread blocks nothing
+            import asyncio as _a
+
+            try:
+                _a.get_running_loop()
+                events.append("B")
+            except RuntimeError:
+                events.append("B" if driver == "sync" else "")
+
+        pm.sleep = rec_sleep
 
     def responder(data, idx):
         events.append("D")
+        arrivals.append(time.monotonic())
         seen["n"] += 1
         if lose is not None and seen["n"] - 1 == lose:
             return []
@@ -475,6 +486,9 @@ def session_events(driver, cfg, script, send_fault=None, lose=None, both=False, 
             raise drivers.MachineryError(str(errs[:2]))
         if o.kind != "ok":
             return "".join(events) + "!" + o.exc_name
+    if mode == "limit":
+        dense = [round(arrivals[i + 2] - arrivals[i], 4) for i in range(len(arrivals) - 2) if arrivals[i + 2] - arrivals[i] < 1.0 / LIMIT_RPS - 0.005]
+        return "D" * len(arrivals) + ("!three datagrams within %s s at limit_rps=%d" % (dense[:3], LIMIT_RPS) if dense else "")
     return "".join(events)
 
 
@@ -490,10 +504,14 @@ def work_sessions(chunk):
         n = ev.count("D")
         if case.get("mode") == "delay" and case["driver"] == "sync":
             ev = ev.replace("WB", "W")  # the sync client takes the delay with the blocking sleep: that is its job
-        if ev != "WD" * n or n == 0:
+        if case.get("mode") == "limit":
+            bad = "!" in ev or n < 3
+        else:
+            bad = ev != "WD" * n or n == 0
+        if bad:
             res.violation(
                 "session/%s/%s/%s%s" % (case["driver"], cfg.name, "+".join(case["script"]), ("/EAGAIN-on-send" if case.get("send_fault") is not None else "") + ("/reply-lost" if case.get("lose") is not None else "") + ("/policer+limit_rps" if case.get("both") else "") + ("/" + case["mode"] if case.get("mode") else "")),
-                "policer waits (W) and datagrams (D) interleave as %r, expected one wait before every datagram" % ev,
+                ("rate limit not applied: %r" % ev) if case.get("mode") == "limit" else "policer waits (W) and datagrams (D) interleave as %r, expected one wait before every datagram" % ev,
                 case,
             )
         res.sample({"session": case["driver"], "script": case["script"], "events": ev})
